@@ -150,6 +150,14 @@ class C09(Prop):
                 tok = r["token"]
                 if calls > n + 3:
                     ctx.fail("endless", "%s: more calls than pages (%d) and still not done" % (label, n), case)
+            if k == 1 and calls >= 2:
+                # a token fed back WITHOUT a page count ("everything that is left")
+                r1 = self.call(case, w, order, 1, None, co)
+                r2 = self.call(case, w, order, None, r1.get("token"), co)
+                both = [(bytes(g["lru"]), bool(g["crawled"])) for g in list(r1["pages"]) + list(r2["pages"])]
+                if not r2["done"] or both != seq:
+                    ctx.fail("resume-without-count", "crawled_only=%r: first answer (k=1) then the token with no page count: done=%r, got %r, expected %r"
+                             % (co, r2["done"], both[:6], seq[:6]), case)
             if got != seq:
                 dup = [x for x in got if got.count(x) > 1]
                 ctx.fail("sequence", "k=%d crawled_only=%r prefixes %r: paging yields %r, expected %r (missing %r, repeated %r)"
@@ -235,11 +243,36 @@ class C09(Prop):
             ctx.extra["token_round_trips"] += 1
         run_given(seed * 1000 + 700 + shard, n,
                   st.tuples(st.integers(0, 10 ** 6), st.lists(st.sampled_from([1, 2, 3]), min_size=0, max_size=400)), one)
+        if shard == 5 % nshards:
+            self.covering_creation(ctx)
         # degenerate shapes, spread over the shards
         jobs = [("siblings", 50), ("siblings", 300), ("deep", 120), ("deep", 1000), ("comb", 10)]
         for j, (shape, size) in enumerate(jobs):
             if j % nshards == shard % len(jobs) and shard < len(jobs):
                 self.degenerate(ctx, shape, size)
+
+    def covering_creation(self, ctx):
+        """fixed dynamic scenarios: a hand-made webentity on ONE prefix holds pages under several children (one of them the
+        h:www| host); while it is paged with k=1, a request inserted after the j-th call creates (automatically) a webentity
+        that covers the page the cursor stands on or an ancestor of it.  For every j: must/may oracle of the dynamic check."""
+        site = b"s:http|h:com|h:site|"
+        pages = [site + b"h:www|p:b|", site + b"h:www|p:a|", site + b"p:m|", site + b"p:z|", site + b"h:www|", site + b"p:m|p:n|"]
+        intruders = [("page", b"s:https|h:com|h:site|p:q|", False),          # default rule: also takes s:http|...|h:www| variations
+                     ("links", [(b"s:https|h:com|h:site|h:www|p:k|", site + b"p:z|")])]
+        for intr in intruders:
+            for j in range(0, 6):
+                case = Case(self, ctx, Config(backend="memory", default_rule="domain"), None)
+                try:
+                    case.step(("create", [site]))
+                    case.step(("pages", pages, True))
+                    w = case.led.prefix_map[site]
+                    gaps = [[] for _ in range(8)]
+                    gaps[j] = [intr]
+                    case.ops.append(("probe", "dynamic", w, [site], False, 1, gaps))
+                    self.dynamic(case, w, [site], False, 1, gaps)
+                    ctx.extra["covering_creation_scenarios"] += 1
+                finally:
+                    case.abort()
 
     def degenerate(self, ctx, shape, size):
         case = Case(self, ctx, Config(backend="memory"), None)
